@@ -226,7 +226,9 @@ def one_run(engine_kind, proc_kind, nproc, seed, npaths, mode="fixed"):
             proc = LevyProcess(model)
         else:
             grid = CTMCUniformGrid(h=0.1, model=model, truncation_probability=0.999)
-            proc = MarkovChainProcess(model=model, method=SamplingMethod.BINARYSEARCHTREE, grid=grid)
+            # "chain_table": the sampler that draws from Python's random module rather than from numpy
+            method = SamplingMethod.TABLE if proc_kind == "chain_table" else SamplingMethod.BINARYSEARCHTREE
+            proc = MarkovChainProcess(model=model, method=method, grid=grid)
         conf = ConfigurationStandard(mc_paths=npaths, seed=seed, nb_of_processes=nproc)
         stats = eng.Engine(conf, proc).price(prod)
         price = float(np.ravel(stats.price())[0])
@@ -275,6 +277,8 @@ def main():
     for ek, pk in (("std", "direct"), ("std", "chain"), ("mlmc", "adaptive"), ("mlmc", "fixedlevels")):
         for nproc, seed in ((1, 1234), (1, None), (2, 1234)):
             cases.append((ek, pk, nproc, seed, "jump"))
+    cases.append(("std", "chain_table", 1, 1234, "fixed"))
+    cases.append(("std", "chain_table", 1, 1234, "jump"))
     from harness.encode import ranks
     for (ek, pk, nproc, seed, mode) in cases:
         npaths = 5 if quick else 9
@@ -290,6 +294,8 @@ def main():
             for run in (1, 2):
                 # the ambient generator state differs from run to run (as it does between two program starts)
                 np.random.seed(None)
+                import random as _random
+                _random.seed()
                 STATE["seeds"] = []
                 e, price = one_run(ek, pk, nproc, seed, npaths, mode)
                 ev.append({"e": "Run", "n": run})
